@@ -6,6 +6,11 @@ import gzip, json, os, sys, time
 from multiprocessing import Pool
 sys.path.insert(0, "/verif")
 from vf.bounded import si_pairs as P
+if os.environ.get("PYTHONHASHSEED") != "0":
+    # StridedInterval.sdiv / mul / ... join a SET of partial results: the result (and so the set of failing inputs) depends on the string hash
+    # seed.  ./check pins PYTHONHASHSEED=0; the list must be made under the same seed.
+    os.environ["PYTHONHASHSEED"] = "0"
+    os.execv(sys.executable, [sys.executable] + sys.argv)
 WIDTHS = [1, 2, 3]
 
 
